@@ -262,6 +262,35 @@ pub fn run(prop: &str, tier: &str, replay: Option<&str>) -> i32 {
         });
         rep.add(sec);
     }
+    // C1a'. an issuer whose name is the subject's up to letter case, blanks or string kind: two names that a directory would
+    // match are still two byte strings; the subject is written as requested and the issuer field as the issuer has it
+    {
+        let swap_case = |s: &str| s.chars().map(|c| if c.is_ascii_lowercase() { c.to_ascii_uppercase() } else { c.to_ascii_lowercase() }).collect::<String>();
+        let mut cases: Vec<(DnSpec, DnSpec, &'static str)> = Vec::new();
+        for (l, dn) in dn_values() {
+            if l.starts_with("uc:") || dn.0.is_empty() {
+                continue;
+            }
+            let cased = DnSpec(dn.0.iter().map(|(t, k, v)| (t.clone(), *k, swap_case(v))).collect());
+            let kinded = DnSpec(dn.0.iter().map(|(t, k, v)| (t.clone(), match k { StrKind::Utf8 => StrKind::Printable, StrKind::Printable => StrKind::Utf8, StrKind::Teletex => StrKind::Utf8, StrKind::Ia5 => StrKind::Utf8, other => *other }, v.clone())).collect());
+            let spaced = DnSpec(dn.0.iter().map(|(t, k, v)| (t.clone(), *k, format!("{} ", v.replace(' ', "  ")))).collect());
+            cases.push((dn.clone(), cased, "other case"));
+            cases.push((dn.clone(), kinded, "other string kinds"));
+            cases.push((dn.clone(), spaced, "other blanks"));
+        }
+        let sec = Section::new("sweep/issuer named almost like the subject", "every name of the name alphabet as subject under an issuer whose name differs from it only in letter case, only in string kinds, or only in blanks");
+        run::sweep_cases(&sec, &cases, &|c| format!("subject={:?} issuer: {}", c.0 .0, c.2), &|c| {
+            let mut st = CertState::default();
+            st.dn = c.0.clone();
+            // an issuer name that its string kinds cannot hold is not constructible: nothing to judge
+            if crate::glue::to_dn(&c.1).is_err() {
+                return Outcome::default();
+            }
+            let ctx = stub_issuer_ctx(Alg::EcP256, &c.1, &KeyIdSpec::Sha256, Alg::Ed25519, "pair");
+            judge.judge(&st, &ctx)
+        });
+        rep.add(sec);
+    }
     // C1b'. explicit serial numbers of every length 0..=24 octets x first octet {00, 01, 7f, 80, ff} x filling {00, 5a, ff}:
     // the INTEGER says exactly the caller's number (leading zero octets are not part of a number)
     {
